@@ -21,6 +21,10 @@ ASSUMPTIONS = ['np.pad semantics for edge / wrap modes are taken as the definiti
                'only the placement of the source block is the library\'s responsibility']
 
 
+# integer types of a sample count (n <= 24 fits all of them): numpy signed and unsigned scalars next to the python int
+COUNT_FORMS = ('int64', 'int32', 'int16', 'int8', 'uint8', 'uint16', 'uint32', 'uint64')
+
+
 def par(n):
     return 'odd' if n % 2 else 'even'
 
@@ -53,6 +57,15 @@ def run_grid(case, seed, R):
             R.expect_close(f0, np.fft.ifftshift(reff), 4 * eps * np.abs(np.fft.ifftshift(reff)),
                            f'forward_ft_unit:noshift:{par(n)}', f'forward_ft_unit({dx},{n},shift=False)')
             R.nontrivial(n > 1)
+            # the sample count in the integer types an array shape, a file header field or an index computation hands over
+            for tname in COUNT_FORMS:
+                nn = getattr(np, tname)(n)
+                v = R.call(fttools.fftrange, nn, dtype=config.precision)
+                R.expect_equal(v, ref.astype(float), f'fftrange:count-form:{"unsigned" if tname.startswith("u") else "signed"}', f'fftrange(np.{tname}({n}), dtype)')
+                v = R.call(fttools.fftrange, nn)
+                R.expect_equal(v, ref, f'fftrange:count-form:{"unsigned" if tname.startswith("u") else "signed"}', f'fftrange(np.{tname}({n}))')
+                f = R.call(fttools.forward_ft_unit, dx, nn, True)
+                R.expect_close(f, reff, 4 * eps * np.abs(reff), f'forward_ft_unit:count-form:{"unsigned" if tname.startswith("u") else "signed"}', f'forward_ft_unit({dx}, np.{tname}({n}))')
         xr = (np.arange(n1) - n1 // 2) * dx
         yr = (np.arange(n0) - n0 // 2) * dx
         sig = f'make_xy_grid:{par(n0)}x{par(n1)}'
@@ -81,6 +94,12 @@ def run_grid(case, seed, R):
             if np.asarray(x).shape == (n0, n1):
                 R.expect(np.all(x[:, n1 // 2] == 0) and np.all(y[n0 // 2, :] == 0), sig, 'exact zero line at n//2')
                 R.expect(not np.shares_memory(x, y), sig + ':grids-alias', 'x and y grids returned by make_xy_grid share memory')
+        for tname in COUNT_FORMS:
+            out = R.call(coordinates.make_xy_grid, (getattr(np, tname)(n0), getattr(np, tname)(n1)), dx=dx, grid=False)
+            if out is not FAILED:
+                fs = 'unsigned' if tname.startswith('u') else 'signed'
+                R.expect_close(out[0], xr, 4 * eps * np.abs(xr), f'make_xy_grid:count-form:{fs}', f'x vector, shape given as np.{tname}')
+                R.expect_close(out[1], yr, 4 * eps * np.abs(yr), f'make_xy_grid:count-form:{fs}', f'y vector, shape given as np.{tname}')
         if n0 == n1:
             out = R.call(coordinates.make_xy_grid, n0, dx=dx, grid=True)
             if out is not FAILED:
@@ -451,7 +470,7 @@ def plan(tier, seed):
         wf_unit,
         ScopeUnit('grids', grid_cases, run_grid,
                   f'every (n0,n1) in [1..{B1}]^2 x dx in {{1,0.3,0.125}} x precision {{64,32}}: fftrange, forward_ft_unit (both conventions), '
-                  'make_xy_grid (vectors, meshgrid, int shape, diameter form), RichData.x/.y in both lazy-initialisation orders; non-trivial when n>1', reset=rs),
+                  'make_xy_grid (vectors, meshgrid, int shape, diameter form), RichData.x/.y in both lazy-initialisation orders; the sample count also as numpy int8..int64 / uint8..uint64 scalars; non-trivial when n>1', reset=rs),
         ScopeUnit('pad_crop', pad_cases, run_pad,
                   f'every (n0,n1)->(N0,N1) with n<=N<={B2} per axis plus 1-D tails up to {B1}: pad2d (constant 0, constant 7.5, edge, wrap; tuple and int out_shape), '
                   'crop_center, crop(pad(x))==x, pad(crop(b)) keeps block in place, Wavefront.pad2d / crop in and out of place; data are unique integer labels so placement is decided exactly; non-trivial when the shape changes', reset=rs),
